@@ -176,3 +176,14 @@ _p(
     uncovered=["the real TorchDynamo path (graph capture, guards, caching) is assumed, not checked"],
     explanation="PROVED: quantise_fwd == (value Q_self(x), gradient unchanged) and quantise_bwd == (value unchanged, gradient Q_self(g)) from the real local autograd.Function classes; tuple_to_format(format_to_tuple(f)) == f on all four fields; each of the four wrappers == OP on the forward-quantised tensor operands (bias / mask / scalars untouched) with the output gradient quantised to bwd, using exactly the caller's formats; the argument splice binds every original parameter to its original value and the two format parameters to the caller's formats for the enumerated call shapes (failing shapes: known finding F4b); the backend replaces a matching node in place (order, positional and keyword users) and leaves every other node untouched (one generic iteration); simulate_fp8 is the E4M3 / E5M2 instance; a lossless format is the identity bit for bit for all |x| < 2^126 and every random draw. BOUNDED: the whole-graph comparison.",
 )
+
+_p(
+    "C19",
+    level="other",
+    technique="contract-based deductive verification of _prune and of the three helpers on one generic node of an arbitrary graph, under assumed fx contracts; whole-graph clauses on real tracked graphs by a bounded stand-in",
+    trusted_base=SMT + FX + ["bounded/c19_tracked.py (bounded stand-in, not proof)"],
+    assumptions=[A7, "A4: torch.fx contracts as listed in pyvc/fxmodel.py (deep `users`, erase_node refusing nodes with users, live iteration of graph.nodes, deepcopy of a Graph) -- validated at run time, group fx", "the generic node stands between an arbitrary earlier and later part of the graph; argument nestings enumerated: positional, keyword, both, list, tuple in keyword, index tuple, slice bound, dict value"],
+    components=[comp.validators(["fx"]), comp.script("c19-tracked-graphs", "BOUNDED stand-in", ["{ROOT}/bounded/c19_tracked.py"])],
+    bounded=["graphs produced by the real track_scales (TorchDynamo) for 3 small modules (cat/stack, keyword tensor arguments, integer index tensors, views/negations, multi-output), rtol in {2^-16} (quick) / {2^-16, 2^-8, 2^-2} (thorough): no exception, lint, sub-sequence, exact removed set for the non-float helper, no invented paths, input graph unchanged"],
+    explanation="PROVED (under the fx contracts): _prune never raises, removes the node and rewrites every user's arguments to the deep substitution node -> replacement for every argument nesting (also for the output node); prune_non_float_tensors / prune_same_scale_tensors work on a deep copy (input graph unchanged), remove a node iff the documented condition holds (non-float; exactly one float-tensor input whose mean |x| is within rtol forward and, when both recorded, backward -- math.isclose semantics exact), bypass it to its single float input wherever it appeared in the consumer's arguments, keep the order of the survivors and add nothing, and return a graph that lints; prune_selected_nodes cuts the edge (None) in place. BOUNDED: real tracked graphs.",
+)
